@@ -184,7 +184,7 @@ def gen_c16_item(r: random.Random, idx: int):
         return attrs
 
     # generics
-    gen_kind = r.choice(["", "", "", "", "T", "TU", "life", "const", "bounded", "where", "default", "constdef", "constonly", "life2", "default2", "constwhere", "oddnames", "constv"])
+    gen_kind = r.choice(["", "", "", "", "T", "TU", "life", "const", "bounded", "where", "default", "constdef", "constonly", "life2", "default2", "constwhere", "oddnames", "constv", "constfirst"])
     tparams = []
     if gen_kind == "T":
         it.generics, tparams = "<T>", ["T"]
@@ -207,6 +207,9 @@ def gen_c16_item(r: random.Random, idx: int):
     elif gen_kind == "constwhere":
         # no type parameters, but a where clause the type cannot be named without
         it.generics, tparams, it.where = "<const N: usize>", [], " where [u8; N]: Default"
+    elif gen_kind == "constfirst":
+        # a defaulted const parameter in front of a type parameter
+        it.generics, tparams = "<const N: usize = 3, T = i32>", ["T"]
     elif gen_kind == "oddnames":
         # parameter names that are also names the generated code uses for itself
         it.generics, tparams = r.choice([("<inline, generics>", ["inline", "generics"]), ("<name, v>", ["name", "v"]),
@@ -239,7 +242,7 @@ def gen_c16_item(r: random.Random, idx: int):
             ts += ["&'a str", "std::borrow::Cow<'a, str>"]
         if gen_kind == "life2":
             ts += ["&'b str", "&'a &'b str"]
-        if gen_kind in ("const", "constdef", "constonly", "constwhere"):
+        if gen_kind in ("const", "constdef", "constonly", "constwhere", "constfirst"):
             ts += ["[i32; N]", "[Option<String>; N]"]
         if gen_kind == "constv":
             cn = it.generics.split("const ")[1].split(":")[0]
